@@ -180,6 +180,9 @@ func ruleC17(c *Ctx) {
 	}
 	c.useFn(gen)
 	c.useFn(cb)
+	// "the reverse complement of a banned sequence" is C11's; barcodes are made of A, C, G, T only
+	checkRCShape(c, "TERM")
+	checkComplementOracleOn(c, "TERM", "ACGT")
 	// ---- generator
 	gtb := newTB(gen)
 	// the alphabet: a constant string indexed by a generated digit, in the generator or its closures
